@@ -140,21 +140,23 @@ def h4(ctx):
     ctx.check(okr, "recursion-same-x-t", "children are substituted with the same x and t", "the recursive calls of do_term_subst change x or t", where_of(b))
 
 
-# name-inventing constructors: who may call Slot::numeric / Slot::named, and why
+# name-inventing constructors: who may call Slot::numeric / Slot::named, and why.
+# Keyed by (source file, constructor) with the number of reviewed sites (renaming an internal function keeps the
+# verdict; a new site in the file is reported).
 ALLOWED_NAMED_CALLERS = {
-    "lang::add_slot": "shape numbering: $0, $1, ... in occurrence order (names live only inside shapes)",
-    "explain::registry": "proof-registry normalisation: equations are renamed to $0.. before hashing",
-    "egraph::check": "the consistency check tests that $0 is not a class slot",
-    "parse::tokenize": "user text: `$name` in a term or pattern",
-    "rewrite::slot_free_in": "user-supplied slot name in a side condition",
-    "slot::": "the constructors themselves",
+    ("src/lang.rs", "numeric"): (1, "shape numbering: $0, $1, ... in occurrence order (names live only inside shapes)"),
+    ("src/explain/registry.rs", "numeric"): (2, "proof-registry normalisation: equations are renamed to $0.. before hashing"),
+    ("src/egraph/check.rs", "numeric"): (1, "the consistency check tests that $0 is not a class slot"),
+    ("src/parse.rs", "named"): (1, "user text: `$name` in a term or pattern"),
+    ("src/rewrite/mod.rs", "named"): (1, "user-supplied slot name in a side condition (slot_free_in)"),
 }
 
 
-@rule("H5", doc="census: only Slot::fresh invents names; numeric/named are confined to a frozen caller set")
+@rule("H5", doc="census: only Slot::fresh invents names; numeric/named are confined to a frozen (file, constructor) table")
 def h5(ctx):
     crate = ctx.lib()
-    n_fresh = n_named = 0
+    n_fresh = 0
+    seen = {}
     for b in crate.bodies.values():
         for c in b.calls:
             if b.blocks[c.bb]["cleanup"] or not c.callee:
@@ -164,14 +166,18 @@ def h5(ctx):
                 n_fresh += 1
             elif t in ("slot::Slot::numeric", "slot::Slot::named"):
                 root = crate.root_of(b)
-                if (root.file or "").endswith("tst.rs"):
+                if (root.file or "").endswith("tst.rs") or (root.file or "").endswith("src/slot.rs") or (b.file or "").endswith("src/slotmap.rs") and root.name == "test_slotmap":
                     continue
-                n_named += 1
-                key = C.fkey(root)
-                why = [w for k, w in ALLOWED_NAMED_CALLERS.items() if k in root.id]
-                ctx.check(bool(why), "named-constructor-caller:%s:%s" % (key, c.callee.name), "%s calls Slot::%s — %s" % (C.short(root.id), c.callee.name, why[0] if why else ""),
-                          "%s calls Slot::%s: library code outside the frozen set invents a slot by name/number instead of Slot::fresh(); such a name can capture a user slot" % (C.short(root.id), c.callee.name),
-                          where_of(b, c.bb))
+                seen.setdefault((b.file, c.callee.name), []).append((root, b, c))
+    n_named = sum(len(v) for v in seen.values())
+    for (file, ctor), sites in sorted(seen.items(), key=lambda x: (str(x[0][0]), x[0][1])):
+        ent = ALLOWED_NAMED_CALLERS.get((file, ctor))
+        if ent is not None and len(sites) <= ent[0]:
+            ctx.ok("named-constructor:%s:%s" % (file, ctor), "%d reviewed call(s) of Slot::%s in %s — %s" % (len(sites), ctor, file, ent[1]), where_of(sites[0][1], sites[0][2].bb))
+        else:
+            root, b, c = sites[-1]
+            ctx.bad("named-constructor:%s:%s" % (file, ctor), "%s in %s calls Slot::%s (%d site(s) in this file, %d reviewed): library code outside the frozen set invents a slot by name/number instead of Slot::fresh(); such a name can capture a user slot" % (
+                C.short(root.id), file, ctor, len(sites), ent[0] if ent else 0), where_of(b, c.bb))
     ctx.floor("Slot::fresh call sites", n_fresh, 6)
     ctx.floor("Slot::numeric/named call sites", n_named, 4)
 
